@@ -197,15 +197,14 @@ def _witness(r, method, conds, unit, acct):
         return {'ok': False, 'w': []}
 
 
-NO_AWIT = {'ok': False, 'hasS': False, 'ts': [], 'is': [], 'ds': [0, 0], 'ex': [1, 0], 'op': 'none', 'eff': [1, 0]}
+NO_AWIT = {'ok': False, 'hasQ': False, 'ex': [1, 0], 'op': 'none', 'eff': [1, 0]}
 
 
 def _awitness(case, k, r, include_entropy, sden_op, kw):
     """Ingredients of the pre-exponential factor taken from the species list of the CASE (site
-    densities, which reactants are adsorbates) and the species objects' own get_SoR - never from
-    ChemkinReaction.get_A / _get_n_surf.  exp(ds) is a libm sensor of the logged ds; eff is numpy's
-    sden_operation over the adsorbate reactants' site densities (verified by the trace spec)."""
-    import math
+    densities, which reactants are adsorbates) and the species objects' own get_q - never from
+    ChemkinReaction.get_A / _get_n_surf.  eff is numpy's sden_operation over the adsorbate
+    reactants' site densities (verified by the trace spec)."""
     import numpy as np
     rc, sp = case['rx'][k], case['species']
     ts = r.transition_state
@@ -214,14 +213,16 @@ def _awitness(case, k, r, include_entropy, sden_op, kw):
     try:
         w = dict(NO_AWIT, ok=True)
         if ts is not None and include_entropy:
-            val = lambda x: float(x.get_SoR(**kw))
-            is_ = [(int(n), val(x)) for x, n in zip(r.reactants, r.reactants_stoich)]
-            ts_ = [(int(n), val(x)) for x, n in zip(ts, r.transition_state_stoich)]
-            ds = sum(n * v for n, v in ts_) - sum(n * v for n, v in is_)
-            if not core.finite(ds) or abs(ds) > 600:
+            # pmutt's rule: (kb T/h) * q_TS / q_IS / T with the species' own partition functions
+            # (_ModelBase.get_q, documented to return 1 for empirical species such as Nasa)
+            q = 1.
+            for x, n in zip(ts, r.transition_state_stoich):
+                q *= float(x.get_q()) ** int(n)
+            for x, n in zip(r.reactants, r.reactants_stoich):
+                q /= float(x.get_q()) ** int(n)
+            if not core.finite(q) or q <= 0:
                 return NO_AWIT
-            w.update(hasS=True, ts=[[n, to_dec(v)] for n, v in ts_], **{'is': [[n, to_dec(v)] for n, v in is_]})
-            w.update(ds=to_dec(ds), ex=to_dec(math.exp(ds)))
+            w.update(ex=to_dec(q), hasQ=True)
         dens = []
         for c, i in rc['lhs']:
             if sp[i - 1]['ph'] != 'G' and not sp[i - 1]['bulk'] and sp[i - 1]['site']:
@@ -720,7 +721,7 @@ def _exercised(cases, traces):
         'all_species_in_tube', 'all_defaults', 'newline_crlf', 'rx_given_as_list', 'rx_given_as_Reactions',
         'from_string_reactions', 'bep_transition_states', 'coefficient_3', 'same_species_both_sides',
         'occupancy_above_1', 'stick_int_1', 'surface_rx_with_bulk_reactant', 'surface_rx_with_bulk_product',
-        'A_species_witnesses', 'A_species_witnesses_with_bulk_reactant', 'A_species_witnesses_with_entropy')}
+        'A_species_witnesses', 'A_species_witnesses_with_bulk_reactant', 'A_species_witnesses_with_ts')}
     for m in ACTS:
         ex['act_' + m] = 0
     for m in ADS_ACTS:
@@ -805,7 +806,7 @@ def _exercised(cases, traces):
                 for r, w in zip(case['rx'], e['awit']):
                     if w['ok']:
                         ex['A_species_witnesses'] += 1
-                        ex['A_species_witnesses_with_entropy'] += bool(w['hasS'])
+                        ex['A_species_witnesses_with_ts'] += bool(w['hasQ'])
                         ex['A_species_witnesses_with_bulk_reactant'] += any(sp[i - 1]['bulk'] for c, i in r['lhs'])
         ex['occupancy_above_1'] += sum(x['occ'] > 1 for x in sp)
         ex['stick_int_1'] += sum(1 for r in case['rx'] if r['ads'] and r['stick'] == 1 and o.get('numkind') != 'float')
